@@ -5,7 +5,7 @@
 (* All numbers are integers in a common fixed-point unit chosen by the     *)
 (* caller; "tol" is the caller's tolerance PER TERM (0 for integer runs).  *)
 (***************************************************************************)
-EXTENDS Routes
+EXTENDS Routes, TLC
 
 Abs(x) == IF x < 0 THEN -x ELSE x
 Max2(a, b) == IF a > b THEN a ELSE b
@@ -16,6 +16,29 @@ SumOver(S, F(_)) == LET RECURSIVE Go(_)
                         Go(T) == IF T = {} THEN 0
                                  ELSE LET x == CHOOSE y \in T : TRUE IN F(x) + Go(T \ {x})
                     IN Go(S)
+
+(***************************************************************************)
+(* elements_to_ignore_percentile (kMinPathErrorCycles): the elements whose *)
+(* value lies strictly below the p-th percentile of all values present     *)
+(* (linear interpolation between the order statistics, p in 0..100) are    *)
+(* ignored.  Decided in integers: with (n-1)*p = 100*q + fr, the           *)
+(* percentile is s[q+1] + fr/100 * (s[q+2] - s[q+1]).  r.ignpct < 0: off.  *)
+(***************************************************************************)
+BelowPercentile(v, vals, p) ==
+  LET s == SortSeq(vals, <)
+      n == Len(s)
+      rank == (n - 1) * p
+      q == rank \div 100
+      fr == rank % 100
+  IN n > 0 /\ 100 * v < 100 * s[q + 1] + (IF fr = 0 THEN 0 ELSE fr * (s[q + 2] - s[q + 1]))
+PctIgnored(r) ==
+  IF "ignpct" \notin DOMAIN r \/ r.ignpct < 0 THEN {}
+  ELSE LET ABSENT == -999999
+           vs == IF r.mode = "node" THEN r.nw ELSE r.ew
+           xs == IF r.mode = "node" THEN r.nodes ELSE r.edges
+           present == {i \in 1..Len(xs) : vs[i] # ABSENT}
+           vals == SetToSeq({<<i, vs[i]>> : i \in present})          \* (index kept so that equal values stay separate)
+       IN {xs[i] : i \in {j \in present : BelowPercentile(vs[j], [m \in 1..Len(vals) |-> vals[m][2]], r.ignpct)}}
 
 (***************************************************************************)
 (* Length coverage (subpath_constraints_coverage_length, DAG models): an   *)
